@@ -90,6 +90,33 @@ theorem aset_mapv {γ : Type} (f : β → γ) (l : List (α × β)) (a : α) (b 
     aset (l.map (fun e => (e.1, f e.2))) a (f b) = (aset l a b).map (fun e => (e.1, f e.2)) := by
   simp only [aset, adel_mapv, List.map_cons]
 
+theorem nodup_akeys_adel (l : List (α × β)) (a : α) (h : (akeys l).Nodup) :
+    (akeys (adel l a)).Nodup := by
+  induction l with
+  | nil => simp [adel, akeys]
+  | cons e l ih =>
+    obtain ⟨k, v⟩ := e
+    have hk : k ∉ akeys l ∧ (akeys l).Nodup := by simpa [akeys] using h
+    by_cases hka : k = a
+    · subst hka
+      have : adel ((k, v) :: l) k = adel l k := by simp [adel]
+      rw [this]
+      exact ih hk.2
+    · have hb : (k == a) = false := by simpa using hka
+      have : adel ((k, v) :: l) a = (k, v) :: adel l a := by simp [adel, hb]
+      rw [this]
+      have hnot : k ∉ akeys (adel l a) := fun hm => hk.1 ((mem_akeys_adel l a k).mp hm).2
+      have := ih hk.2
+      simp only [akeys, List.map_cons, List.nodup_cons] at hnot ⊢
+      exact ⟨hnot, this⟩
+
+theorem nodup_akeys_aset (l : List (α × β)) (a : α) (b : β) (h : (akeys l).Nodup) :
+    (akeys (aset l a b)).Nodup := by
+  have h1 := nodup_akeys_adel l a h
+  have h2 : a ∉ akeys (adel l a) := fun hm => ((mem_akeys_adel l a a).mp hm).1 rfl
+  simp only [aset, akeys, List.map_cons, List.nodup_cons] at h1 h2 ⊢
+  exact ⟨h2, h1⟩
+
 end alist
 
 /-! ### disk -/
@@ -143,5 +170,59 @@ theorem mem_sortKeys (x : Bytes) (l : List Bytes) : x ∈ sortKeys l ↔ x ∈ l
   induction l with
   | nil => simp [sortKeys]
   | cons y ys ih => simp [sortKeys, mem_insertKey, ih]
+
+theorem nodup_insertKey (k : Bytes) (l : List Bytes) (hk : k ∉ l) (h : l.Nodup) :
+    (insertKey k l).Nodup := by
+  induction l with
+  | nil => simp [insertKey]
+  | cons y ys ih =>
+    have hy : y ∉ ys ∧ ys.Nodup := by simpa using h
+    have hk' : k ≠ y ∧ k ∉ ys := by simpa using hk
+    simp only [insertKey]
+    split
+    · rw [List.nodup_cons]
+      refine ⟨?_, ih hk'.2 hy.2⟩
+      rw [mem_insertKey]
+      rintro (e | e)
+      · exact hk'.1 e.symm
+      · exact hy.1 e
+    · rw [List.nodup_cons]
+      exact ⟨hk, h⟩
+
+theorem nodup_sortKeys (l : List Bytes) (h : l.Nodup) : (sortKeys l).Nodup := by
+  induction l with
+  | nil => simp [sortKeys]
+  | cons y ys ih =>
+    have hy : y ∉ ys ∧ ys.Nodup := by simpa using h
+    simp only [sortKeys]
+    exact nodup_insertKey y _ (fun hm => hy.1 ((mem_sortKeys y ys).mp hm)) (ih hy.2)
+
+theorem nodup_map_of_inj_on {α β : Type} (f : α → β) (l : List α)
+    (hinj : ∀ x ∈ l, ∀ y ∈ l, f x = f y → x = y) (h : l.Nodup) : (l.map f).Nodup := by
+  induction l with
+  | nil => simp
+  | cons a l ih =>
+    have ha : a ∉ l ∧ l.Nodup := by simpa using h
+    rw [List.map_cons, List.nodup_cons]
+    refine ⟨?_, ih (fun x hx y hy => hinj x (List.mem_cons_of_mem _ hx) y (List.mem_cons_of_mem _ hy)) ha.2⟩
+    intro hm
+    obtain ⟨y, hy, hfy⟩ := List.mem_map.mp hm
+    have := hinj a List.mem_cons_self y (List.mem_cons_of_mem _ hy) hfy.symm
+    exact ha.1 (this ▸ hy)
+
+theorem nodup_filter_keys (c : Col) (f : Bytes × Bytes → Bool) (h : (akeys c).Nodup) :
+    ((c.filter f).map (·.1)).Nodup := by
+  induction c with
+  | nil => simp
+  | cons e c ih =>
+    have he : e.1 ∉ akeys c ∧ (akeys c).Nodup := by simpa [akeys] using h
+    simp only [List.filter_cons]
+    split
+    · rw [List.map_cons, List.nodup_cons]
+      refine ⟨?_, ih he.2⟩
+      intro hm
+      obtain ⟨y, hy, hfy⟩ := List.mem_map.mp hm
+      exact he.1 (List.mem_map.mpr ⟨y, (List.mem_filter.mp hy).1, hfy⟩)
+    · exact ih he.2
 
 end QbiceVerif.Kv
